@@ -36,6 +36,9 @@ func catalogue(w *world, check string) []kase {
 	if check == "C05" {
 		mode, menu = "inject", "structural"
 	}
+	if w.sc.StartOnly {
+		return startCases(w)
+	}
 	if w.sc.StateOnly {
 		cs := stateCases(w, w.spec.IDs[:1])
 		if w.sc.BlameOnly {
